@@ -22,7 +22,7 @@ ASSUMPTIONS = ["exceptions of other kinds on out-of-contract input (IndexError f
 
 CLASSES = ["len_mismatch", "bad_shape", "small_n", "bad_ref_rule", "bad_target_rule", "bad_strategy", "bad_method",
            "fp_not_samples", "fp_too_many", "fpi_too_many", "trunc_inverted", "trunc_ratio_inverted", "trunc_mixed",
-           "trunci_bounds", "slice_absent", "slicei_bounds", "grid_ends", "dataset"]
+           "trunci_bounds", "slice_absent", "slicei_bounds", "grid_ends", "grid_ref_ends", "dataset"]
 
 
 def history(rng):
@@ -100,6 +100,7 @@ def gen(rng):
         c["x"] = ["0", "1", "2", "3"]
         c["y"] = ["1", "2", "3", "4"]
         c["as_list"] = False
+        c["int_x"] = c["int_y"] = False
         c["ops"] = [{"op": "recreate", "strategy": "linfixed", "n": 4, "alpha": "1"},
                     {"op": "trunc_v", "fa": "3/10", "fb": "11/5", "lk": "raw", "rk": "raw", "lr": False, "rr": False, "force": True},
                     {"op": "trunc_v", "fa": "4/5", "fb": "2", "lk": "raw", "rk": "raw", "lr": True, "rr": False, "force": True}]
@@ -115,6 +116,15 @@ def gen(rng):
     elif cls == "grid_ends":
         c["ops"].append({"op": "interp", "method": rng.choice(["linear", "constant"]), "grid": ["1/2", "1/4"], "bad_ends": True,
                          "force": True})
+    elif cls == "grid_ref_ends":
+        # working and reference series span different ranges; the grid has the REFERENCE's end points
+        c["x"] = ["5", "6", "7", "8", "9", "10", "11", "12"]
+        c["y"] = [str(v) for v in rng.values(8)]
+        c["as_list"] = False
+        c["int_x"] = c["int_y"] = False
+        c["ops"] = [{"op": "recreate", "strategy": "linfixed", "n": 4, "alpha": "1"},
+                    {"op": "trunc_v", "fa": "13/2", "fb": "21/2", "lk": "raw", "rk": "raw", "lr": False, "rr": False, "force": True},
+                    {"op": "interp", "method": "linear", "grid": ["1/2"], "ref_ends": True, "force": True}]
     elif cls == "dataset":
         c["dataset"] = rng.choice(["no-such-dataset", "sandvine_nothing", "ams-ix_hourly", ""])
         c["ops"] = []
